@@ -31,6 +31,7 @@ type ChildSpec struct {
 	Forks              int
 	ForksIgnoreSignals bool
 	AsUser             bool // the task command names a user (the one the executor itself runs as)
+	MissingBinary      bool // no shell, and the named binary does not exist: the child never starts
 }
 
 type TransitionSpec struct {
@@ -311,7 +312,7 @@ func judge(p *Plan, obs []Obs, stderr string, exitCode int, timedOut bool) (fs [
 	}
 	// (2) killed on request => not FAILED. Judged only when the task would have lived on: the child never exits by itself
 	// and (controllable) the device had become ready before the kill.
-	livesOn := p.Child.ExitAfterMs < 0
+	livesOn := p.Child.ExitAfterMs < 0 && !p.Child.MissingBinary
 	readyBeforeKill := true
 	if p.Kind == "direct" {
 		readyBeforeKill = false
@@ -376,6 +377,9 @@ func judge(p *Plan, obs []Obs, stderr string, exitCode int, timedOut bool) (fs [
 	}
 	// classes
 	classes = append(classes, "kind:"+p.Kind)
+	if p.Child.MissingBinary {
+		classes = append(classes, "binary-missing")
+	}
 	if killStart >= 0 {
 		classes = append(classes, "kill")
 	}
@@ -479,6 +483,7 @@ func genChild(t *rapid.T) ChildSpec {
 	c.Forks = rapid.SampledFrom([]int{0, 0, 1, 2}).Draw(t, "forks")
 	c.ForksIgnoreSignals = c.Forks > 0 && rapid.IntRange(0, 3).Draw(t, "forksIgnore") == 0
 	c.AsUser = rapid.IntRange(0, 3).Draw(t, "asUser") == 0
+	c.MissingBinary = rapid.IntRange(0, 7).Draw(t, "missingBinary") == 0
 	return c
 }
 
@@ -591,11 +596,17 @@ func TestFixed(t *testing.T) {
 	vh.Fixed(t, prop, "basic-kill-while-running", basicPlan(ChildSpec{ExitAfterMs: -1, Forks: 1}, conf, start, Step{DelayMs: 600, Op: "kill"}), run)
 	vh.Fixed(t, prop, "basic-kill-right-after-launch", basicPlan(lives, Step{DelayMs: 20, Op: "kill"}), run)
 	vh.Fixed(t, prop, "basic-stop-never-started", basicPlan(lives, conf, tr(0, "RESET", "CONFIGURED", "STANDBY"), Step{DelayMs: 300, Op: "kill"}), run)
+	nobin := ChildSpec{ExitAfterMs: -1, MissingBinary: true}
+	vh.Fixed(t, prop, "basic-binary-missing-start-then-kill", basicPlan(nobin, conf, start, Step{DelayMs: 300, Op: "kill"}), run)
+	vh.Fixed(t, prop, "basic-binary-missing-start-stop-start-kill", basicPlan(nobin, conf, start, stop, tr(300, "START", "CONFIGURED", "RUNNING"), Step{DelayMs: 300, Op: "kill"}), run)
+	vh.Fixed(t, prop, "hook-binary-missing-trigger-kill", Plan{Kind: "hook", Child: nobin, HookTimeoutMs: 1500, OpTimeoutMs: 8000, SettleMs: 500,
+		Steps: []Step{{DelayMs: 300, Op: "trigger"}, {DelayMs: 100, Op: "kill"}}}, run)
 	vh.Fixed(t, prop, "hook-trigger-kill-trigger", Plan{Kind: "hook", Child: ChildSpec{ExitAfterMs: 100}, HookTimeoutMs: 1500, OpTimeoutMs: 8000, SettleMs: 500,
 		Steps: []Step{{DelayMs: 300, Op: "trigger"}, {Op: "kill"}, {Op: "trigger"}}}, run)
 	vh.Fixed(t, prop, "hook-kill-right-after-trigger", Plan{Kind: "hook", Child: ChildSpec{ExitAfterMs: 100}, HookTimeoutMs: 1500, OpTimeoutMs: 8000, SettleMs: 500,
 		Steps: []Step{{DelayMs: 300, Op: "trigger"}, {Op: "kill"}}}, run)
 	await := Step{DelayMs: 8000, Op: "await"}
+	vh.Fixed(t, prop, "direct-binary-missing-launch-then-kill", directPlan(nobin, DeviceSpec{InitialState: "STANDBY", ReportPid: true, ExitOnDoneMs: -1}, await, Step{DelayMs: 300, Op: "kill"}), run)
 	vh.Fixed(t, prop, "direct-walk-and-kill", directPlan(lives, readyDev, await, conf, start, Step{DelayMs: 300, Op: "kill"}), run)
 	vh.Fixed(t, prop, "direct-kill-child-exits-nonzero-on-done", directPlan(ChildSpec{ExitAfterMs: -1, ExitCode: 3}, DeviceSpec{InitialState: "STANDBY", ReportPid: true, ExitOnDoneMs: 300}, await, conf, Step{DelayMs: 300, Op: "kill"}), run)
 	vh.Fixed(t, prop, "direct-kill-child-exits-nonzero-immediately-on-exit", directPlan(ChildSpec{ExitAfterMs: -1, ExitCode: 3}, DeviceSpec{InitialState: "STANDBY", ReportPid: true, ExitOnDoneMs: 0}, await, Step{DelayMs: 300, Op: "kill"}), run)
